@@ -189,6 +189,42 @@ type c15HSPS struct {
 }
 
 // c15GenRPS draws st_ref_pic_set(idx) (7.3.7). shape selects the structure, values are symbolic.
+// c15UsedBits >= 0 makes the used_by_curr_pic flags of explicitly coded sets concrete (bit k
+// for the k-th flag drawn): P and B slice headers depend on their count (NumPicTotalCurr).
+var c15UsedBits = -1
+var c15UsedK int
+
+func c15Used(name string) bool {
+	if c15UsedBits < 0 {
+		return vfy.Bool(name)
+	}
+	c15UsedK++
+	return (c15UsedBits>>uint(c15UsedK-1))&1 == 1
+}
+
+// numUsed counts the pictures of the set that are used by the current picture. For an
+// inter-predicted set this is only defined here for the shapes the P/B instances use (every
+// derived delta POC negative), where it is the number of used_by_curr_pic_flag bits set.
+func (r *c15RPS) numUsed() int {
+	n := 0
+	for _, u := range r.used {
+		if u {
+			n++
+		}
+	}
+	for _, u := range r.negUsed {
+		if u {
+			n++
+		}
+	}
+	for _, u := range r.posUsed {
+		if u {
+			n++
+		}
+	}
+	return n
+}
+
 func c15GenRPS(idx int, inSlice bool, prev []*c15RPS, shape int) *c15RPS {
 	r := &c15RPS{}
 	if idx > 0 && shape&1 == 1 {
@@ -198,6 +234,9 @@ func c15GenRPS(idx int, inSlice bool, prev []*c15RPS, shape int) *c15RPS {
 			r.deltaIdxMinus1 = c15C(0)
 		}
 		r.deltaRpsSign = vfy.Bool("rps.sign")
+		if c15UsedBits >= 0 {
+			r.deltaRpsSign = true // deltaRps < 0: with only negative pictures in the reference set every derived delta POC is negative
+		}
 		r.absDeltaRpsMinus1 = c15UE("rps.absdelta", 1000)
 		for j := 0; j <= prev[ref].numDeltaPocs; j++ {
 			// used_by_curr_pic_flag gates use_delta_flag: concrete pattern from the shape
@@ -217,11 +256,11 @@ func c15GenRPS(idx int, inSlice bool, prev []*c15RPS, shape int) *c15RPS {
 	nneg, npos := 1+(shape>>1)&1, (shape>>2)&1
 	for i := 0; i < nneg; i++ {
 		r.negDelta = append(r.negDelta, c15UE("rps.s0", 1000))
-		r.negUsed = append(r.negUsed, vfy.Bool("rps.used0"))
+		r.negUsed = append(r.negUsed, c15Used("rps.used0"))
 	}
 	for i := 0; i < npos; i++ {
 		r.posDelta = append(r.posDelta, c15UE("rps.s1", 1000))
-		r.posUsed = append(r.posUsed, vfy.Bool("rps.used1"))
+		r.posUsed = append(r.posUsed, c15Used("rps.used1"))
 	}
 	r.numDeltaPocs = nneg + npos
 	return r
@@ -907,7 +946,27 @@ func c15CeilLog2(x uint64) int {
 // 256 sao chroma, 512 two entry points, 1024 two extension bytes, 2048 one long-term picture,
 // 4096 one long-term picture from the SPS.
 func VerifC15HSlice(spsVariant, spsShape, fixLog2, ppsShape, sliceShape, class int) {
+	c15HSlice(spsVariant, spsShape, fixLog2, ppsShape, sliceShape, class, 2, 0)
+}
+
+// VerifC15HSlicePB: the same for P (stype 1) and B (stype 0) slice segment headers.
+// pbShape bits: 1 num_ref_idx override, 2 two entries in list 0, 4 two entries in list 1,
+// 8 / 16 list modification flags, 32 luma weights, 64 chroma weights, 128 collocated_from_l0 = 0,
+// 256 weighted prediction enabled in the PPS, 512 slice_temporal_mvp_enabled_flag,
+// 1024.. : used_by_curr_pic pattern of the explicitly coded reference picture sets.
+func VerifC15HSlicePB(spsVariant, spsShape, fixLog2, ppsShape, sliceShape, class, stype, pbShape int) {
+	c15HSlice(spsVariant, spsShape, fixLog2, ppsShape, sliceShape, class, stype, pbShape)
+}
+
+func c15HSlice(spsVariant, spsShape, fixLog2, ppsShape, sliceShape, class, stype, pbShape int) {
 	c15Begin(class)
+	pbit := func(k uint) bool { return (pbShape>>k)&1 == 1 }
+	isPB := stype != 2
+	c15UsedBits, c15UsedK = -1, 0
+	if isPB {
+		c15UsedBits = pbShape >> 10
+	}
+	defer func() { c15UsedBits = -1 }()
 	s := c15GenHSPS(spsVariant, spsShape, fixLog2)
 	spsNalu := s.serialize()
 	sps, err := ParseSPSNALUnit(spsNalu)
@@ -918,6 +977,21 @@ func VerifC15HSlice(spsVariant, spsShape, fixLog2, ppsShape, sliceShape, class i
 	spsMap := map[uint32]*SPS{uint32(sps.SpsID): sps}
 	p := c15GenHPPS(s.id, ppsShape)
 	vfy.Assume(p.id.v != s.id.v)
+	n0, n1 := 1, 1
+	if pbit(1) {
+		n0 = 2
+	}
+	if pbit(2) {
+		n1 = 2
+	}
+	if isPB {
+		// the defaults are used when not overridden; when overridden they differ from the coded counts
+		p.l0, p.l1 = c15C(uint64(n0-1)), c15C(uint64(n1-1))
+		if pbit(0) {
+			p.l0, p.l1 = c15C(uint64(2-n0)), c15C(uint64(2-n1))
+		}
+		p.wp, p.wbp = pbit(8), pbit(8)
+	}
 	ppsNalu := p.serialize()
 	pps, err := ParsePPSNALUnit(ppsNalu, spsMap)
 	vfy.Assert(err == nil, "serialized PPS parses")
@@ -954,6 +1028,8 @@ func VerifC15HSlice(spsVariant, spsShape, fixLog2, ppsShape, sliceShape, class i
 		segAddr = uint64(vfy.U32("segaddr")) & (1<<uint(ab) - 1)
 		w.u(segAddr, ab)
 	}
+	var pb c15PB
+	pbStIdx := 0
 	var picOutput, stSpsFlag, sliceTmvp, saoLuma, saoChroma, override, sliceDisable, lfAcross bool
 	var colourPlane, pocLsb, stIdx uint64
 	var sliceRPS *c15RPS
@@ -966,7 +1042,7 @@ func VerifC15HSlice(spsVariant, spsShape, fixLog2, ppsShape, sliceShape, class i
 		for i := 0; i < int(p.extraBits); i++ {
 			w.flag(vfy.Bool("reserved"))
 		}
-		w.ue(c15C(2)) // slice_type I
+		w.ue(c15C(uint64(stype))) // slice_type
 		if p.outputFlag {
 			picOutput = vfy.Bool("picoutput")
 			w.flag(picOutput)
@@ -989,6 +1065,10 @@ func VerifC15HSlice(spsVariant, spsShape, fixLog2, ppsShape, sliceShape, class i
 				ib := c15CeilLog2(uint64(len(s.rps)))
 				stIdx = uint64(vfy.U8("stidx")) & (1<<uint(ib) - 1)
 				vfy.Assume(stIdx < uint64(len(s.rps)))
+				if isPB { // the set in use decides NumPicTotalCurr: concrete
+					pbStIdx = (pbShape >> 9) & 1 % len(s.rps)
+					stIdx = uint64(pbStIdx)
+				}
 				w.u(stIdx, ib)
 			}
 			if s.longTerm {
@@ -1024,6 +1104,9 @@ func VerifC15HSlice(spsVariant, spsShape, fixLog2, ppsShape, sliceShape, class i
 			}
 			if s.tmvp {
 				sliceTmvp = vfy.Bool("slicetmvp")
+				if isPB {
+					sliceTmvp = pbit(9) // gates the collocated picture syntax
+				}
 				w.flag(sliceTmvp)
 			}
 		}
@@ -1038,6 +1121,116 @@ func VerifC15HSlice(spsVariant, spsShape, fixLog2, ppsShape, sliceShape, class i
 				saoChroma = sb(8)
 				w.flag(saoChroma)
 			}
+		}
+		if isPB {
+			// NumPicTotalCurr (7-55): pictures of the RPS in use and long-term pictures marked as used
+			numPicTotalCurr := 0
+			if !isIDR {
+				switch {
+				case sliceRPS != nil:
+					numPicTotalCurr = sliceRPS.numUsed()
+					pb.interRPSInUse = sliceRPS.inter
+				case len(s.rps) > 0:
+					numPicTotalCurr = s.rps[pbStIdx].numUsed()
+					pb.interRPSInUse = s.rps[pbStIdx].inter
+				}
+				// (long-term pictures are not combined with P/B in the instances)
+			}
+			pb.override = pbit(0)
+			w.flag(pb.override)
+			if pb.override {
+				w.ue(c15C(uint64(n0 - 1)))
+				if stype == 0 {
+					w.ue(c15C(uint64(n1 - 1)))
+				}
+			}
+			if p.listsMod && numPicTotalCurr > 1 {
+				pb.hasMod = true
+				eb := c15CeilLog2(uint64(numPicTotalCurr))
+				pb.mod0 = pbit(3)
+				w.flag(pb.mod0)
+				if pb.mod0 {
+					for i := 0; i < n0; i++ {
+						e := uint64(vfy.U8("listentry0")) & (1<<uint(eb) - 1)
+						pb.entries0 = append(pb.entries0, e)
+						w.u(e, eb)
+					}
+				}
+				if stype == 0 {
+					pb.mod1 = pbit(4)
+					w.flag(pb.mod1)
+					if pb.mod1 {
+						for i := 0; i < n1; i++ {
+							e := uint64(vfy.U8("listentry1")) & (1<<uint(eb) - 1)
+							pb.entries1 = append(pb.entries1, e)
+							w.u(e, eb)
+						}
+					}
+				}
+			}
+			if stype == 0 {
+				pb.mvdL1Zero = vfy.Bool("mvdl1zero")
+				w.flag(pb.mvdL1Zero)
+			}
+			if p.cabacInit {
+				pb.cabacInit = vfy.Bool("cabacinit")
+				w.flag(pb.cabacInit)
+			}
+			pb.collFromL0 = true // inferred when not present (7.4.7.1)
+			if sliceTmvp {
+				if stype == 0 {
+					pb.collFromL0 = !pbit(7)
+					w.flag(pb.collFromL0)
+				}
+				if (pb.collFromL0 && n0 > 1) || (!pb.collFromL0 && n1 > 1) {
+					pb.hasCollIdx = true
+					pb.collIdx = c15UE("collocatedrefidx", 1)
+					w.ue(pb.collIdx)
+				}
+			}
+			if (p.wp && stype == 1) || (p.wbp && stype == 0) {
+				pb.weighted = true
+				pb.lumaDenom = c15UE("lumadenom", 7)
+				w.ue(pb.lumaDenom)
+				if chromaArrayType != 0 {
+					pb.chromaDenom = c15SE("deltachromadenom", 14)
+					w.ue(pb.chromaDenom)
+				}
+				table := func(n int, tag string) (ws []c15W) {
+					ws = make([]c15W, n)
+					for i := 0; i < n; i++ {
+						ws[i].luma = pbit(5) && i == 0
+						w.flag(ws[i].luma)
+					}
+					if chromaArrayType != 0 {
+						for i := 0; i < n; i++ {
+							ws[i].chroma = pbit(6) && i == n-1
+							w.flag(ws[i].chroma)
+						}
+					}
+					for i := 0; i < n; i++ {
+						if ws[i].luma {
+							ws[i].lw, ws[i].lo = c15SE(tag+".lw", 254), c15SE(tag+".lo", 254)
+							w.ue(ws[i].lw)
+							w.ue(ws[i].lo)
+						}
+						if ws[i].chroma {
+							for j := 0; j < 2; j++ {
+								ws[i].cw[j], ws[i].co[j] = c15SE(tag+".cw", 254), c15SE(tag+".co", 1000)
+								w.ue(ws[i].cw[j])
+								w.ue(ws[i].co[j])
+							}
+						}
+					}
+					return ws
+				}
+				pb.w0 = table(n0, "w0")
+				if stype == 0 {
+					pb.w1 = table(n1, "w1")
+				}
+			}
+			pb.merge = c15UE("fiveminusmaxmerge", 4)
+			w.ue(pb.merge)
 		}
 		qpDelta = c15SE("qpdelta", 100)
 		w.ue(qpDelta) // se(v)
@@ -1102,6 +1295,10 @@ func VerifC15HSlice(spsVariant, spsShape, fixLog2, ppsShape, sliceShape, class i
 	w.u(0x80, 8)
 	nalu := w.pack(nalType)
 	sh, err := ParseSliceHeader(nalu, spsMap, ppsMap)
+	// known finding: the parser does not derive the pictures of an inter-predicted RPS, so it
+	// counts none of them in NumPicTotalCurr and skips ref_pic_lists_modification()
+	vfy.Known("C15-hevc-inter-rps-not-derived", pb.interRPSInUse && pb.hasMod)
+	defer vfy.KnownEnd()
 	vfy.Assert(err == nil, "slice segment header parses (PPS by pps id, SPS by that PPS's sps id)")
 	if err != nil {
 		return
@@ -1110,7 +1307,10 @@ func VerifC15HSlice(spsVariant, spsShape, fixLog2, ppsShape, sliceShape, class i
 	vfy.Assert(sh.FirstSliceSegmentInPicFlag == first && sh.NoOutputOfPriorPicsFlag == noOutput && uint64(sh.PicParameterSetId) == p.id.v, "first segment flag / no output of prior pics / pps id")
 	vfy.Assert(sh.DependentSliceSegmentFlag == dependentSeg && uint64(sh.SegmentAddress) == segAddr, "dependent segment flag / segment address")
 	if !dependentSeg {
-		vfy.Assert(sh.SliceType == SLICE_I && sh.PicOutputFlag == picOutput && uint64(sh.ColourPlaneId) == colourPlane, "slice type / pic output / colour plane")
+		vfy.Assert(int(sh.SliceType) == stype && sh.PicOutputFlag == picOutput && uint64(sh.ColourPlaneId) == colourPlane, "slice type / pic output / colour plane")
+		if isPB {
+			pb.compare(sh, stype, n0, n1, chromaArrayTypeOf(s))
+		}
 		if !isIDR {
 			vfy.Assert(uint64(sh.PicOrderCntLsb) == pocLsb && sh.ShortTermRefPicSetSpsFlag == stSpsFlag, "slice_pic_order_cnt_lsb / short_term_ref_pic_set_sps_flag")
 			if sliceRPS != nil {
@@ -1288,4 +1488,91 @@ func VerifC15HConfig(variant, shape, csShape, class int) {
 	}
 	vfy.Assert(cs == string(want), "codec string hvc1.[A-C]P.CCCCCCCC.[LH]LL.constraint bytes")
 	vfy.Cover("hevc config compared")
+}
+
+
+// ---------------------------------------------------------------- P / B slice syntax (7.3.6.1 - 7.3.6.3)
+
+type c15W struct {
+	luma, chroma bool
+	lw, lo       c15V
+	cw, co       [2]c15V
+}
+
+type c15PB struct {
+	interRPSInUse                bool
+	override, hasMod, mod0, mod1 bool
+	entries0, entries1           []uint64
+	mvdL1Zero, cabacInit         bool
+	collFromL0, hasCollIdx       bool
+	collIdx                      c15V
+	weighted                     bool
+	lumaDenom, chromaDenom       c15V
+	w0, w1                       []c15W
+	merge                        c15V
+}
+
+func chromaArrayTypeOf(s *c15HSPS) uint64 {
+	if s.sepPlane {
+		return 0
+	}
+	return s.chroma
+}
+
+func (pb *c15PB) compare(sh *SliceHeader, stype, n0, n1 int, chromaArrayType uint64) {
+	vfy.Assert(sh.NumRefIdxActiveOverrideFlag == pb.override, "num_ref_idx_active_override_flag")
+	vfy.Assert(int(sh.NumRefIdxL0ActiveMinus1) == n0-1, "num_ref_idx_l0_active_minus1 (coded, or the PPS default)")
+	if stype == 0 {
+		vfy.Assert(int(sh.NumRefIdxL1ActiveMinus1) == n1-1, "num_ref_idx_l1_active_minus1 (coded, or the PPS default)")
+	}
+	vfy.Assert((sh.RefPicListsModification != nil) == pb.hasMod, "ref_pic_lists_modification() present iff lists_modification_present_flag && NumPicTotalCurr > 1")
+	if pb.hasMod && sh.RefPicListsModification != nil {
+		m := sh.RefPicListsModification
+		ok := m.RefPicListModificationFlagL0 == pb.mod0 && m.RefPicListModificationFlagL1 == pb.mod1 && len(m.ListEntryL0) == len(pb.entries0) && len(m.ListEntryL1) == len(pb.entries1)
+		vfy.Assert(ok, "ref_pic_list_modification flags and entry counts")
+		if ok {
+			for i := range pb.entries0 {
+				vfy.Assert(uint64(m.ListEntryL0[i]) == pb.entries0[i], "list_entry_l0")
+			}
+			for i := range pb.entries1 {
+				vfy.Assert(uint64(m.ListEntryL1[i]) == pb.entries1[i], "list_entry_l1")
+			}
+		}
+	}
+	vfy.Assert(sh.MvdL1ZeroFlag == pb.mvdL1Zero && sh.CabacInitFlag == pb.cabacInit, "mvd_l1_zero_flag / cabac_init_flag")
+	vfy.Assert(sh.CollocatedFromL0Flag == pb.collFromL0, "collocated_from_l0_flag (coded or inferred 1)")
+	if pb.hasCollIdx {
+		vfy.Assert(uint64(sh.CollocatedRefIdx) == pb.collIdx.v, "collocated_ref_idx")
+	}
+	vfy.Assert((sh.PredWeightTable != nil) == pb.weighted, "pred_weight_table() present")
+	if pb.weighted && sh.PredWeightTable != nil {
+		t := sh.PredWeightTable
+		vfy.Assert(uint64(t.LumaLog2WeightDenom) == pb.lumaDenom.v, "luma_log2_weight_denom")
+		if chromaArrayType != 0 {
+			vfy.Assert(int64(t.DeltaChromaLog2WeightDenom) == pb.chromaDenom.signed(), "delta_chroma_log2_weight_denom")
+		}
+		cmp := func(got []WeightingFactors, want []c15W, what string) {
+			vfy.Assert(len(got) == len(want), what+": entry count")
+			if len(got) != len(want) {
+				return
+			}
+			for i, x := range want {
+				g := got[i]
+				vfy.Assert(g.LumaWeightFlag == x.luma && g.ChromaWeightFlag == x.chroma, what+": weight flags")
+				if x.luma {
+					vfy.Assert(int64(g.DeltaLumaWeight) == x.lw.signed() && int64(g.LumaOffset) == x.lo.signed(), what+": luma weight / offset")
+				}
+				if x.chroma {
+					for j := 0; j < 2; j++ {
+						vfy.Assert(int64(g.DeltaChromaWeight[j]) == x.cw[j].signed() && int64(g.DeltaChromaOffset[j]) == x.co[j].signed(), what+": chroma weight / offset")
+					}
+				}
+			}
+		}
+		cmp(t.WeightsL0, pb.w0, "pred weight l0")
+		if stype == 0 {
+			cmp(t.WeightsL1, pb.w1, "pred weight l1")
+		}
+	}
+	vfy.Assert(uint64(sh.FiveMinusMaxNumMergeCand) == pb.merge.v, "five_minus_max_num_merge_cand")
 }
